@@ -137,10 +137,11 @@ mod lsp {
     fn update(&mut self, absolute_source_path: &Path, updates: Vec<(Url, String)>) {
       let mut mod_ref_updates = Vec::new();
       for (url, code) in updates {
-        let mod_ref = self.0.heap.alloc_module_reference_from_string_vec(
-          convert_url_to_module_reference_helper(absolute_source_path, &url),
-        );
-        mod_ref_updates.push((mod_ref, code));
+        // A document outside of the source root is not a module of this project.
+        if let Some(parts) = convert_url_to_module_reference_helper(absolute_source_path, &url) {
+          let mod_ref = self.0.heap.alloc_module_reference_from_string_vec(parts);
+          mod_ref_updates.push((mod_ref, code));
+        }
       }
       self.0.update(mod_ref_updates);
     }
@@ -211,7 +212,10 @@ mod lsp {
     Url::from_file_path(path).ok()
   }
 
-  fn convert_url_to_module_reference_helper(absolute_source_path: &Path, url: &Url) -> Vec<String> {
+  fn convert_url_to_module_reference_helper(
+    absolute_source_path: &Path,
+    url: &Url,
+  ) -> Option<Vec<String>> {
     let url_str = url.as_str();
     let url_protocol_stripped_str = PathBuf::from(if url_str.starts_with("file://") {
       url_str.chars().skip("file://".len()).collect::<String>()
@@ -222,7 +226,6 @@ mod lsp {
       absolute_source_path,
       url_protocol_stripped_str.as_path(),
     )
-    .unwrap()
   }
 
   unsafe impl Send for WrappedState {}
@@ -247,17 +250,18 @@ mod lsp {
       heap: &samlang_heap::Heap,
       url: &Url,
     ) -> samlang_heap::ModuleReference {
-      let parts = convert_url_to_module_reference_helper(&self.absolute_source_path, url);
-      heap.get_allocated_module_reference_opt(parts).unwrap_or(samlang_heap::ModuleReference::ROOT)
+      convert_url_to_module_reference_helper(&self.absolute_source_path, url)
+        .and_then(|parts| heap.get_allocated_module_reference_opt(parts))
+        .unwrap_or(samlang_heap::ModuleReference::ROOT)
     }
 
     fn convert_url_to_module_reference_add_if_absent(
       &self,
       heap: &mut samlang_heap::Heap,
       url: &Url,
-    ) -> samlang_heap::ModuleReference {
-      let parts = convert_url_to_module_reference_helper(&self.absolute_source_path, url);
-      heap.alloc_module_reference_from_string_vec(parts)
+    ) -> Option<samlang_heap::ModuleReference> {
+      let parts = convert_url_to_module_reference_helper(&self.absolute_source_path, url)?;
+      Some(heap.alloc_module_reference_from_string_vec(parts))
     }
 
     fn convert_module_reference_to_url(
@@ -372,7 +376,7 @@ mod lsp {
         .filter_map(|uri| {
           let content = fs::read_to_string(uri.path()).ok()?;
           Some((
-            self.convert_url_to_module_reference_add_if_absent(&mut state.0.heap, &uri),
+            self.convert_url_to_module_reference_add_if_absent(&mut state.0.heap, &uri)?,
             content,
           ))
         })
@@ -388,8 +392,8 @@ mod lsp {
         .files
         .iter()
         .filter_map(|f| Option::zip(Url::parse(&f.old_uri).ok(), Url::parse(&f.new_uri).ok()))
-        .map(|(old_uri, new_uri)| {
-          (
+        .filter_map(|(old_uri, new_uri)| {
+          Option::zip(
             self.convert_url_to_module_reference_add_if_absent(&mut state.0.heap, &old_uri),
             self.convert_url_to_module_reference_add_if_absent(&mut state.0.heap, &new_uri),
           )
